@@ -333,7 +333,7 @@ def c02_py_converters(prop="C02", tier="quick", seed=0, **kw):
     for pat in (("VSV", "VSSV", "SSS") if quick else ("VSV", "VSSV", "SSS", "SSV", "VSVS", "VSSSV")):
         jobs.append(_job("h_ndjson_lines", "lines:" + pat, b, nmax=2 if quick or len(pat) > 4 else 3, pattern=pat))
     expected = ["conv.to_json-no-unexpected-exception", "conv.range-error-only-if-out-of-range", "conv.out-of-range-is-rejected",
-                "conv.from_json-no-exception", "conv.from_json(to_json(v))==v", "conv.json-kinds-extracted", "conv.kind-table-matches-runtime", "conv.map-kind==object-iff-string-key",
+                "conv.from_json-no-exception", "conv.from_json(to_json(v))==v", "conv.tagged-nullable-union-reads-both-null-forms", "conv.json-kinds-extracted", "conv.kind-table-matches-runtime", "conv.map-kind==object-iff-string-key",
                 "lines.no-exception", "lines.values==written", "lines.all-lines-consumed-once"]
     bounds = {"container_len_max": maxlen, "int_leaf_domain": "[-2^64, 2^65]", "enum_members": "<= 3", "floats/dates/flags": "concrete pools",
               "json text": "object level through the JSON data model (dumps/loads applied to concrete leaves only)"}
